@@ -942,3 +942,62 @@ Example ex_xfine_lookup_moves_id_cursor :
   get_position (xf_rs (snd (xw_step s (XGet 0))) R_XKV) = get_position (xf_rs s R_XKV) /\
   fst (xw_step (snd (xw_step s XKey)) XKey) <> fst (xw_step s XKey).
 Proof. vm_compute. repeat split; discriminate. Qed.
+
+(* ================= the low-level readdir API with a REUSED cursor object (strengthening, session 3: seed C10-8) =================
+   sqfs_readdir_state_init is an initialiser: the object it is given may hold anything (uninitialised memory, the
+   cursor of a scan that was abandoned inside a header run).  coq/C10/ReaddirLowModel.v models it as the C function is
+   written, as an update of that object.  Tie: props/C10/h_reader.c ops RI / RR (long-lived = the same caller-owned
+   object re-initialised, poisoned before its first use; fresh = a zeroed object) vs ReaddirLowModel.readdir_state_init /
+   readdir_low_many. *)
+From SqfsV Require Import C10.ReaddirLowModel C10.ReaddirLowProofs.
+
+(* return value and every field of the object afterwards are independent of what the object held before *)
+Theorem readdir_init_ignores_old_state :
+  forall (o1 o2 : rdstate) (sb : super) (i : inode),
+  readdir_state_init o1 sb i = readdir_state_init o2 sb i.
+Proof. exact ReaddirLowProofs.readdir_init_ignores_old_state. Qed.
+Print Assumptions readdir_init_ignores_old_state.
+
+(* and they are the value sqfs_dir_reader_open_dir starts from (a failed init leaves a zeroed object) *)
+Theorem readdir_state_init_value :
+  forall (old : rdstate) (sb : super) (i : inode),
+  readdir_state_init old sb i =
+  match readdir_init sb i with
+  | Ok it => (Ok tt, it)
+  | Err e => (Err e, mkRd 0 0 0 0 0 0)
+  | Crash => (Crash, mkRd 0 0 0 0 0 0)
+  | Fuel => (Fuel, mkRd 0 0 0 0 0 0)
+  end.
+Proof. exact ReaddirLowProofs.readdir_state_init_value. Qed.
+
+(* init of a reused object + any number of sqfs_meta_reader_readdir calls (entries with inum and iref), on a meta
+   reader with any past  =  the same on a zeroed object and a new meta reader; always a value *)
+Theorem low_level_readdir_reused_cursor_history_free :
+  forall uncompress file fsize (old : rdstate) (sb : super) (i : inode) (count : nat) (hist : nat -> N * N * list mop),
+  exists r,
+    fst (run_client uncompress file fsize true (low_scan old sb i count)
+           (after_history uncompress file fsize hist) nothing_positioned) = Done r /\
+    fst (run_client uncompress file fsize true (low_scan (mkRd 0 0 0 0 0 0) sb i count)
+           (fresh_objects hist) nothing_positioned) = Done r.
+Proof. exact low_scan_reused_cursor_history_free. Qed.
+Print Assumptions low_level_readdir_reused_cursor_history_free.
+
+(* the statement has content: an initialiser that clears field by field and forgets `entries` (the seeded change,
+   modelled faithfully) does depend on the old content *)
+Theorem forgetful_init_depends_on_old_state :
+  exists o1 o2 sb i, readdir_state_init_forgetful o1 sb i <> readdir_state_init_forgetful o2 sb i.
+Proof. exact ReaddirLowProofs.forgetful_init_depends_on_old_state. Qed.
+
+(* non-vacuity: the directory of api_img listed through an object that an abandoned scan left inside a header run
+   (entries = 7, a foreign inode block and inum base), on reader objects with a past *)
+Example ex_low_reused :
+  fst (run_client no_codec (read_at api_img) (len api_img) true
+         (low_scan (mkRd 9 1000 17 400 7 55) api_sb
+                   (mkInode [c_SQFS_INODE_DIR; 16384 + 493; 0; 0; 0; 2] [0; 2; 24; 0; 3] []) 5)
+         (after_history no_codec (read_at api_img) (len api_img) api_hist) nothing_positioned)
+  = Done (Ok tt, Some ([([32;0; 0;0; 6;0; 0;0], [112], 32, 1)], REof, mkRd 0 77 0 0 0 1)).
+Proof. vm_compute. reflexivity. Qed.
+Example ex_low_not_dir :
+  readdir_state_init (mkRd 9 1000 17 400 7 55) api_sb (mkInode [c_SQFS_INODE_FIFO; 4096 + 420; 0; 0; 0; 1] [1] [])
+  = (Err c_SQFS_ERROR_NOT_DIR, mkRd 0 0 0 0 0 0).
+Proof. vm_compute. reflexivity. Qed.
